@@ -39,6 +39,13 @@ MUTANTS = [
      "aldy.genotype.genotype@final-selection", "within-gap"),
     ("aldy/gene.py", "            for i in range(rng.start, rng.end)\n", "            for i in range(rng.start, rng.end + 1)\n",
      "aldy.gene.Gene._init_regions@region-index", "indexed-iff-inside-a-region"),
+    ("aldy/sam.py", 'return off + pos, f"ins{alt[off:]}"', 'return off + pos, f"ins{alt[off + 1:]}"', "aldy.sam.Sample._load_vcf.get_mut", "post/insertion"),
+    ("aldy/sam.py", "                        and self.gene[start + i] != seq[s_start + i]", "                        and self.gene[start + i] == seq[s_start + i]",
+     "aldy.sam.Sample._parse_read@aligned-base", "substitution-counted-once"),
+    ("aldy/sam.py", '            if not bounds[0] <= pos <= bounds[1] and mut[:3] != "ins":', '            if not bounds[0] <= pos <= bounds[1] and mut[:3] == "ins":',
+     "aldy.sam.Sample._make_coverage@fold-one-entry", "observations-land-in-the-folded-cell"),
+    ("aldy/sam.py", "                    norm[pos] = norm[pos][:-10]", "                    norm[read.pos - 1] = norm[read.pos - 1][:-10]",
+     "aldy.sam.Sample._load_vcf@genotype-copy", "ten-reference-observations-removed"),
     ("aldy/coverage.py", "            if q >= self.profile.min_quality", "            if q > self.profile.min_quality", "aldy.coverage.Coverage.quality_filter", "post"),
 ]
 SLOW = [
